@@ -235,11 +235,37 @@ structure ApplyShape where
   checksBeforeMap : Bool      -- `_check_inputs_and_convert_if_possible` is called before any `(parallel_)map_over_locations`
   checkedArgsUsed : Bool      -- its result is bound to `obs, cm_hist, cm_future` and exactly these names are passed on
   outputChecked : Bool        -- `self._check_output(output)` is called after the map and before `return output`
+  outputSizes : List String   -- every dispatch path (`callee:output_size`), in source order: the time axis of the result
   deriving DecidableEq, Repr
 
 def applyShapes : List ApplyShape := [
-  ⟨"Debiaser", true, true, true, true⟩,
-  ⟨"DeltaChange", true, true, true, true⟩]
+  ⟨"Debiaser", true, true, true, true, ["parallel_map_over_locations:cm_future.shape", "map_over_locations:cm_future.shape"]⟩,
+  ⟨"DeltaChange", true, true, true, true, ["parallel_map_over_locations:obs.shape", "map_over_locations:obs.shape"]⟩]
+
+/-- the series whose time axis the result lives on: obs for DeltaChange (modified observations), cm_future otherwise -/
+def outputAxis : Deb → Arg
+  | .deltaChange => .obs
+  | _ => .cmFuture
+
+/-- the `apply` method a debiaser runs (`DeltaChange` overrides it, all others inherit `Debiaser.apply`) -/
+def applyClassOf : Deb → String
+  | .deltaChange => "DeltaChange"
+  | _ => "Debiaser"
+
+def axisName : Arg → String
+  | .obs => "obs"
+  | .cmHist => "cm_hist"
+  | _ => "cm_future"
+
+/-- serial and parallel dispatch both allocate the result on the documented time axis -/
+def dispatchAxesOk (l : List ApplyShape) (d : Deb) : Bool :=
+  match l.find? (fun s => s.cls == applyClassOf d) with
+  | none => false
+  | some s => s.outputSizes == ["parallel_map_over_locations:" ++ axisName (outputAxis d) ++ ".shape",
+                                "map_over_locations:" ++ axisName (outputAxis d) ++ ".shape"]
+
+/-- shape of the result of an accepted call: time length of the axis series, the common spatial shape -/
+def outputShape (d : Deb) (x : Inputs) : List Nat := (getArg x (outputAxis d)).shape
 
 /-- every `apply` reaches the checks before any location is processed -/
 def applyOrderOk (l : List ApplyShape) : Bool := l.all (fun s => s.checksBeforeMap && s.checkedArgsUsed && s.outputChecked)
